@@ -2,6 +2,7 @@
   C11 — word finding is lossless and breaks exactly at the specified opportunities.
 -/
 import Lemmas.Words
+import Lemmas.FirstEntry
 namespace TW.C11
 
 /-- the text a word stands for -/
@@ -187,6 +188,64 @@ theorem unicode_boundaries_complete (os : List Nat) (line : Text) (hline : line 
   intro o ho
   obtain ⟨p, d, q, h1, rfl⟩ := hb o ho
   exact reach_of_strip .normal line p d q h1
+
+/-- **placement of the boundaries ("first entry").** With strictly increasing positive
+    opportunities, every boundary sits directly after a VISIBLE character of the line: escape
+    sequences standing between that character and the next visible one belong to the following
+    word, and no boundary falls inside or directly behind a sequence. Together with soundness
+    (the stripped text before the `k`-th boundary has the byte length of the `k`-th used
+    opportunity) this fixes the boundary's position in the original line uniquely. -/
+-- @audit TW.C11.unicode_boundary_first_entry
+theorem unicode_boundary_first_entry (os : List Nat) (line : Text) (hinc : os.Pairwise (· < ·))
+    (hpos : ∀ o ∈ os, 0 < o) (pre : List Text) (p : Text) (post : List Text)
+    (h : uniPieces os line = pre ++ p :: post) (hpre : pre ≠ []) :
+    ∃ t d, pre.flatten = t ++ [d] ∧ ((Ansi.run .normal t).step d).2 = true := by
+  apply uniGo_first_entry .normal .normal 0 [] os line rfl hinc _ pre p post h hpre
+  intro o ho
+  have : o ∈ os := by
+    cases os with
+    | nil => simp at ho
+    | cons x xs => simp at ho; subst ho; simp
+  exact Or.inl (hpos o this)
+
+/-- the position is unique: two prefixes of the line that end in a visible character and have
+    the same stripped length are equal -/
+-- @audit TW.C11.first_entry_unique
+theorem first_entry_unique (line a b ra rb : Text) (ha : line = a ++ ra) (hb : line = b ++ rb)
+    (hva : ∃ t d, a = t ++ [d] ∧ ((Ansi.run .normal t).step d).2 = true)
+    (hvb : ∃ t d, b = t ++ [d] ∧ ((Ansi.run .normal t).step d).2 = true)
+    (hlen : blen (stripAnsi a) = blen (stripAnsi b)) : a = b := by
+  -- one is a prefix of the other; the longer one would contain a further visible character
+  have key : ∀ (a b ra rb : Text), line = a ++ ra → line = b ++ rb → a.length ≤ b.length →
+      (∃ t d, b = t ++ [d] ∧ ((Ansi.run .normal t).step d).2 = true) →
+      blen (stripAnsi a) = blen (stripAnsi b) → a = b := by
+    intro a b ra rb ha hb hle hvb hlen
+    have hpre : a <+: b := by
+      have h1 : a <+: line := ⟨ra, ha.symm⟩
+      have h2 : b <+: line := ⟨rb, hb.symm⟩
+      exact List.prefix_of_prefix_length_le h1 h2 hle
+    obtain ⟨x, rfl⟩ := hpre
+    obtain ⟨t, d, e, hv⟩ := hvb
+    cases hx : x.getLast? with
+    | none =>
+      have : x = [] := List.getLast?_eq_none_iff.mp hx
+      subst this; simp
+    | some y =>
+      exfalso
+      obtain ⟨x', rfl⟩ := List.getLast?_eq_some_iff.mp hx
+      have e2 : a ++ x' = t ∧ y = d := by
+        have : (a ++ x') ++ [y] = t ++ [d] := by rw [← e]; simp
+        have := List.append_inj' this rfl
+        exact ⟨this.1, by simpa using this.2⟩
+      obtain ⟨rfl, rfl⟩ := e2
+      unfold stripAnsi at hlen
+      rw [show a ++ (x' ++ [y]) = (a ++ x') ++ [y] by simp, stripFrom_append (a := a ++ x'), stripFrom_append (a := a)] at hlen
+      simp only [stripFrom, hv, if_true, blen_append, blen_cons, blen_nil] at hlen
+      have := utf8Size_pos y
+      omega
+  rcases Nat.le_total a.length b.length with h | h
+  · exact key a b ra rb ha hb h hvb hlen
+  · exact (key b a rb ra hb ha h hva hlen.symm).symm
 
 /-! non-vacuity: the coloured example of the upstream test-suite; and the repaired defect F3 -/
 example : uniPieces [4] ['f', 'o', 'o', ' ', ESC, '[', '1', 'm', 'b', 'a', 'r'] =
